@@ -412,6 +412,7 @@ var MutationKinds = []string{
 	"votes-drop", "votes-dup", "votes-unsigned", "votes-resigned-by-other", "votes-outsider", "votes-view", "votes-height", "votes-inst", "votes-type",
 	"nvpp-view", "nvpp-height", "nvpp-hash", "nvpp-signer", "nvpp-sig", "nvpp-type", "nvpp-inst", "nv-other-block", "nv-invalid-block", "nv-ignore-lock",
 	"nv-lower-proof-block", "nv-lower-proof-block", "votes-reverse", "proof-pp-view", "proof-pp-view",
+	"votes-one-member", "votes-one-member",
 }
 
 func otherType(t uint16, a int) uint16 {
@@ -804,6 +805,31 @@ func (r *NRun) mutate(sp *MsgSpec, mu Mutation) bool {
 			return false
 		}
 		sp.Votes = append(sp.Votes, sp.Votes[mu.A%nvotes])
+	case "votes-one-member": // every vote is by ONE member: genuinely signed variants that differ in bytes (with / without proof, other proof views)
+		if nvotes == 0 {
+			return false
+		}
+		who := -1
+		for k := 0; k < nvotes; k++ {
+			if i := idxOf(sp.Votes[(mu.A+k)%nvotes].Sender.ID); a.owns(i) {
+				who = i
+				break
+			}
+		}
+		if who < 0 {
+			return false
+		}
+		var vs []VoteSpec
+		vs = append(vs, a.vote(who, sp.NVH, sp.NVV, nil))
+		for pv := uint64(0); pv < sp.NVV && len(vs) < nvotes+1; pv++ {
+			if p := r.genuineProof(pv, r.freshBlock(fmt.Sprintf("one%d", pv))); p != nil {
+				vs = append(vs, a.vote(who, sp.NVH, sp.NVV, p))
+			}
+		}
+		for len(vs) < nvotes { // pad with byte-identical repeats if the views do not give enough variants
+			vs = append(vs, vs[(len(vs)-1)%2%len(vs)])
+		}
+		sp.Votes = vs
 	case "votes-unsigned":
 		if nvotes == 0 {
 			return false
